@@ -12,6 +12,8 @@ COQ = os.path.join(VERIF, "coq")
 EVIDENCE = os.path.join(VERIF, "evidence")
 REPLAYS = os.path.join(EVIDENCE, "replays")
 KNOWN = os.path.join(VERIF, "known_findings.json")
+CORPUS = os.path.join(VERIF, "corpus")
+CORPUS_SEED = 20260929
 NCPU = min(16, os.cpu_count() or 4)
 
 GLOBAL_TRUSTED_BASE = [
@@ -35,6 +37,8 @@ class Ctx:
         self.known_lines = []
         self.known = load_known(prop)
         self.known_hit = {}
+        self.clean = load_clean(prop)      # corpus entries that satisfied the property on the pinned tree
+        self.corpus_hits = 0
 
     @property
     def quick(self):
@@ -60,8 +64,21 @@ class Ctx:
         self.violations.append((path, " no-failing-input-found" if no_input else ""))
         return path
 
-    def item(self, cls, payload):
-        """A discrepancy item: known finding (by class) or violation."""
+    def item(self, cls, payload, corpus_key=None):
+        """A discrepancy item: known finding (by class) or violation.  An item on an entry of the fixed corpus that is recorded as CLEAN
+        (it satisfied the property on the pinned tree: corpus/<prop>.json) is a violation whatever its class -- recorded classes
+        describe inputs that failed on the pinned tree, they do not excuse a failure on an input that did not."""
+        if corpus_key is not None and corpus_key in self.clean:
+            self.corpus_hits += 1
+            payload = dict(payload)
+            payload["discrepancy_class"] = cls
+            payload["corpus_key"] = corpus_key
+            payload["note"] = "this corpus entry satisfied the property on the pinned tree (corpus/%s.json)" % self.prop
+            if len(self.violations) < 20:
+                self.violation(payload)
+            else:
+                self.violations.append((self.violations[-1][0], ""))
+            return True
         kf = self.known.get(cls)
         if kf is not None and kf.get("status", "open") == "open":
             if cls not in self.known_hit:
@@ -91,6 +108,7 @@ class Ctx:
             "violations": len(self.violations),
         }
         coverage.setdefault("known_findings_matched", dict(self.known_hit))
+        coverage.setdefault("clean_corpus_entries", len(self.clean))
         os.makedirs(EVIDENCE, exist_ok=True)
         with open(os.path.join(EVIDENCE, self.prop + ".json"), "w") as f:
             json.dump(ev, f, indent=1, default=repr)
@@ -102,6 +120,13 @@ class Ctx:
             print("VIOLATION property=%s replay=%s%s" % (self.prop, path, suffix))
         sys.stdout.flush()
         return 1 if self.violations else 0
+
+
+def load_clean(prop):
+    try:
+        return set(json.load(open(os.path.join(CORPUS, prop + ".json")))["clean"])
+    except Exception:  # noqa
+        return set()
 
 
 def load_known(prop):
